@@ -8,6 +8,9 @@
 (*       -> Warmup   (documented refusal: ValueError for a single point /  *)
 (*                    a segment of an inhomogeneous problem)               *)
 (*       -> Sample(n, fluxes)  (twice, by two samplers built alike: A, B)  *)
+(*       -> Sample(n2, fluxes) again on the SAME sampler objects           *)
+(*          (cfg.rounds calls in all: a sampler carries its centre and     *)
+(*          sample count from call to call; every call's rows count)       *)
 (*       -> Validate (codes for the returned rows and for probe points)    *)
 (*                                                                         *)
 (* The abstract sampler draws each row as a convex combination (weights    *)
@@ -34,8 +37,9 @@ EXTENDS SamplerOps, Json
 
 CONSTANTS Mode, NInst, Seed, NCfg, Bug
 
-VARIABLES j, x, lat, cfg, phase, rowsA, rowsB, codes, pcodes, modelPost
-vars == <<j, x, lat, cfg, phase, rowsA, rowsB, codes, pcodes, modelPost>>
+VARIABLES j, x, lat, cfg, phase, rowsA, rowsB, codes, pcodes, modelPost,
+          round          \* number of sample() calls made on the sampler object so far
+vars == <<j, x, lat, cfg, phase, rowsA, rowsB, codes, pcodes, modelPost, round>>
 
 LCG(r) == (r * 75 + 74) % 65537
 RECURSIVE Draws(_, _)
@@ -148,16 +152,24 @@ Cfg(i, q) ==
    nproj |-> IF viaf THEN 0 ELSE Pick(Nprojs, d[4]),
    P |-> IF meth = "optgp" THEN (IF d[5] % 3 = 0 THEN 2 + (d[6] % 2) ELSE 1) ELSE 1,
    fluxes |-> viaf \/ d[8] % 3 # 0,
-   via |-> IF viaf THEN "function" ELSE "class"]
+   via |-> IF viaf THEN "function" ELSE "class",
+   \* further sample(n2) calls on the same sampler object (class entry point only)
+   rounds |-> IF viaf THEN 1 ELSE 1 + (d[9] % 3), n2 |-> Pick(Ns, d[10])]
 \* the two pinned F66 witnesses (instances 18, 19) start with a fixed, long enough run
-WitnessCfg == [method |-> "achr", n |-> 20, thin |-> 10, seed |-> 7, nproj |-> 0, P |-> 1, fluxes |-> TRUE, via |-> "class"]
+WitnessCfg == [method |-> "achr", n |-> 20, thin |-> 10, seed |-> 7, nproj |-> 0, P |-> 1, fluxes |-> TRUE, via |-> "class",
+               rounds |-> 1, n2 |-> 1]
 CfgSeq(i) == [q \in 1..NCfg |-> IF q = 1 /\ i \in {18, 19} THEN WitnessCfg ELSE Cfg(i, q)]
 \* the design run also visits these on every instance (so that no clause depends on the draws)
 PinnedCfgs == {
-  [method |-> "optgp", n |-> 17, thin |-> 1, seed |-> 7, nproj |-> 0, P |-> 3, fluxes |-> TRUE, via |-> "class"],
-  [method |-> "optgp", n |-> 4, thin |-> 3, seed |-> 9, nproj |-> 1, P |-> 2, fluxes |-> FALSE, via |-> "class"],
-  [method |-> "achr", n |-> 5, thin |-> 2, seed |-> 3, nproj |-> 5, P |-> 1, fluxes |-> FALSE, via |-> "class"],
-  [method |-> "achr", n |-> 3, thin |-> 1, seed |-> 5, nproj |-> 0, P |-> 1, fluxes |-> TRUE, via |-> "function"]}
+  [method |-> "optgp", n |-> 17, thin |-> 1, seed |-> 7, nproj |-> 0, P |-> 3, fluxes |-> TRUE, via |-> "class", rounds |-> 1, n2 |-> 1],
+  [method |-> "optgp", n |-> 4, thin |-> 3, seed |-> 9, nproj |-> 1, P |-> 2, fluxes |-> FALSE, via |-> "class", rounds |-> 1, n2 |-> 1],
+  [method |-> "achr", n |-> 5, thin |-> 2, seed |-> 3, nproj |-> 5, P |-> 1, fluxes |-> FALSE, via |-> "class", rounds |-> 2, n2 |-> 7],
+  [method |-> "achr", n |-> 3, thin |-> 1, seed |-> 5, nproj |-> 0, P |-> 1, fluxes |-> TRUE, via |-> "function", rounds |-> 1, n2 |-> 1],
+  \* several calls on one OptGP sampler, none of the counts a multiple of the process count
+  [method |-> "optgp", n |-> 5, thin |-> 1, seed |-> 11, nproj |-> 0, P |-> 2, fluxes |-> TRUE, via |-> "class", rounds |-> 3, n2 |-> 7],
+  [method |-> "optgp", n |-> 7, thin |-> 2, seed |-> 13, nproj |-> 0, P |-> 3, fluxes |-> FALSE, via |-> "class", rounds |-> 3, n2 |-> 5]}
+\* the configurations every emitted case ends with
+PinnedTail == <<[method |-> "optgp", n |-> 5, thin |-> 1, seed |-> 11, nproj |-> 0, P |-> 2, fluxes |-> TRUE, via |-> "class", rounds |-> 3, n2 |-> 7]>>
 
 \* ------------------------------------------------------------- the abstract sampler
 Lat == lat
@@ -175,13 +187,17 @@ ChainRow(chainSeed, t, fluxes) ==
   IF Bug = "swap_fwd_rev" /\ fluxes THEN [i \in 1..Len(row) |-> -row[i]] ELSE row
 RECURSIVE Concat(_, _)
 Concat(f, k) == IF k = 0 THEN <<>> ELSE Concat(f, k - 1) \o f[k]
-SampleRows(c, replica) ==
-  LET seed == IF Bug = "unseeded" THEN c.seed + replica ELSE c.seed
+\* the rows of call number k (1 = first) asking for n rows
+RoundRows(c, replica, k, n) ==
+  LET seed == (IF Bug = "unseeded" THEN c.seed + replica ELSE c.seed) + 1000 * (k - 1)
       P == IF c.method = "optgp" THEN c.P ELSE 1
-      m == (c.n + P - 1) \div P
+      m == (n + P - 1) \div P
       chain(idx) == [t \in 1..m |-> ChainRow(IF Bug = "same_chain_seed" THEN seed ELSE seed + idx, t, c.fluxes)]
       all == Concat([q \in 1..P |-> chain(q - 1)], P) IN
-  IF Bug = "no_roundup" THEN SubSeq(all, 1, MinOf(c.n, Len(all))) ELSE all
+  IF Bug = "no_roundup" THEN SubSeq(all, 1, MinOf(n, Len(all))) ELSE all
+SampleRows(c, replica) == RoundRows(c, replica, 1, c.n)
+\* what all the calls of a configuration return together
+RowCountAll(c) == SxRowCount(c.method, c.n, c.P) + (c.rounds - 1) * SxRowCount(c.method, c.n2, c.P)
 Refuses == SxRefusalExpected(X, Lat, SxDim(Lat)) = "yes"
 \* validate() as documented, in the abstract: from the independent judgement of each letter
 AbsCode(v) ==
@@ -202,33 +218,42 @@ Init ==
   /\ phase = IF Mode = "design" THEN "new" ELSE "emit"
   /\ rowsA = <<>> /\ rowsB = <<>> /\ codes = <<>> /\ pcodes = <<>>
   /\ modelPost = ModelDigest(X)
+  /\ round = 0
 
 Warmup ==
   /\ phase = "new"
   /\ phase' = IF Refuses THEN "refused" ELSE "ready"
   /\ modelPost' = IF Bug = "mutates_model" THEN [modelPost EXCEPT !.c = [i \in 1..Len(@) |-> 0], !.dir = "min"] ELSE modelPost
-  /\ UNCHANGED <<j, x, lat, cfg, rowsA, rowsB, codes, pcodes>>
+  /\ UNCHANGED <<j, x, lat, cfg, rowsA, rowsB, codes, pcodes, round>>
 Sample ==
   /\ phase = "ready"
   /\ rowsA' = SampleRows(cfg, 0) /\ rowsB' = SampleRows(cfg, 1)
   /\ phase' = "sampled"
+  /\ round' = 1
   /\ UNCHANGED <<j, x, lat, cfg, codes, pcodes, modelPost>>
+\* one more call on the same sampler objects
+SampleAgain ==
+  /\ phase = "sampled" /\ round < cfg.rounds
+  /\ rowsA' = rowsA \o RoundRows(cfg, 0, round + 1, cfg.n2) /\ rowsB' = rowsB \o RoundRows(cfg, 1, round + 1, cfg.n2)
+  /\ round' = round + 1
+  /\ UNCHANGED <<j, x, lat, cfg, phase, codes, pcodes, modelPost>>
 Validate ==
-  /\ phase = "sampled"
+  /\ phase = "sampled" /\ round = cfg.rounds
   /\ codes' = IF cfg.fluxes THEN [i \in 1..Len(rowsA) |-> AbsCode(rowsA[i])] ELSE <<>>
   /\ pcodes' = LET ps == ProbeSeq(X) IN [i \in 1..Len(ps) |-> AbsCode(ps[i])]
   /\ phase' = "validated"
-  /\ UNCHANGED <<j, x, lat, cfg, rowsA, rowsB, modelPost>>
-Next == Warmup \/ Sample \/ Validate
+  /\ UNCHANGED <<j, x, lat, cfg, rowsA, rowsB, modelPost, round>>
+Next == Warmup \/ Sample \/ SampleAgain \/ Validate
 Spec == Init /\ [][Next]_vars
 
 \* ------------------------------------------------------------- the clauses of C16
 Sampled == phase \in {"sampled", "validated"}
-InvRowCount == Sampled => Len(rowsA) = SxRowCount(cfg.method, cfg.n, cfg.P)
+InvRowCount == Sampled => Len(rowsA) = SxRowCount(cfg.method, cfg.n, cfg.P) + (round - 1) * SxRowCount(cfg.method, cfg.n2, cfg.P)
+InvRowCountAll == phase = "validated" => Len(rowsA) = RowCountAll(cfg)
 InvRowsFeasible == Sampled => \A i \in 1..Len(rowsA) : SxInPolytope(X, rowsA[i], cfg.fluxes) = "yes"
 InvReproducible == Sampled => rowsA = rowsB
 InvChainsDiffer ==
-  (Sampled /\ cfg.method = "optgp" /\ cfg.P > 1 /\ SxDim(Lat) = 2) =>
+  (Sampled /\ round = 1 /\ cfg.method = "optgp" /\ cfg.P > 1 /\ SxDim(Lat) = 2) =>
      LET m == Len(rowsA) \div cfg.P IN
      (m >= 5) => \A a, b \in 1..cfg.P : a # b => SubSeq(rowsA, (a - 1) * m + 1, a * m) # SubSeq(rowsA, (b - 1) * m + 1, b * m)
 \* Quirk_ValidateFluxSpaceIgnoresUserRows: validate() documents 'v' as "feasible in bounds and equality
@@ -259,7 +284,7 @@ InvOracleExact ==
 \* ------------------------------------------------------------- emission
 Emit ==
   LET ps == ProbeSeq(X) IN
-  [j |-> j, inst |-> X, cfgs |-> CfgSeq(j),
+  [j |-> j, inst |-> X, cfgs |-> CfgSeq(j) \o PinnedTail,
    probes |-> [i \in 1..Len(ps) |-> [flux |-> ps[i],
                                      vars |-> LET p == [q \in 1..Len(ps[i]) |-> ps[i][q] \div SxScale] IN
                                               \* variable-space twin only for the integer probes
